@@ -21,6 +21,7 @@ RULE = (
 ASSUMPTIONS = ["names and operand vocabularies are @-free by construction, so an '@' in the regex can only come from an unexpanded reference"]
 FAULTS = ["control", "control", "item", "operand", "deref-value", "key-times", "key-operands", "under-or", "under-not", "in-body-first", "in-body-last", "delete-def", "unpassed-file", "no-at-name", "alias-to-undefined", "shared-lib-second-rule", "in-name", "defined-but-applied-earlier", "cyclic", "in-name-next-to-defined", "in-name-next-to-defined"]
 FLOORS = {f"fault={f}": 0.03 for f in set(FAULTS)}
+FLOORS["library-rewritten-between-compilations"] = 0.01
 UNDEF = ["@zz_", "@undefined_", "@nope_", "@64bit_", "@8_", "@2nd-op_", "@Q.x_"]  # also names that are not identifiers
 
 
@@ -176,6 +177,30 @@ def strategy(tier):
     return cases()
 
 
+def _library_rewritten(ev, sc, case):
+    from vlib.render import render
+
+    ev.tags.append("library-rewritten-between-compilations")
+    lp = sc.write("c19_rw_listing.s", render([("10", "mov", ["%rax", "%rbx"]), ("13", "ret", [])]))
+    v1 = jasm_io.dump_yaml({"macros": [{"name": "@rwlib_", "pattern": [{"$and": ["@rwinner_", "ret"]}]}, {"name": "@rwinner_", "pattern": "mov"}]})
+    how = len(str(case["factored"])) % 3
+    v2 = jasm_io.dump_yaml({"macros": [{"name": "@rwlib_", "pattern": [{"$and": ["@rwinner_", "ret"]}]}] + ([{"name": "@rwother_", "pattern": "mov"}] if how == 0 else [{"name": "rwinner_", "pattern": "mov"}] if how == 1 else [])})
+    rp = sc.write("c19_rw_rule.yaml", jasm_io.rule_text(jasm_io.make_doc(["@rwlib_"] + [x for x in case["factored"] if isinstance(x, str) and "@" not in x][:1])))
+    for entry in ("mop", "y2r"):
+        lib = sc.write(f"c19_rw_lib_{entry}.yaml", v1)
+        first = jasm_io.match_files(rp, lp, mode="bool", macros=[lib]) if entry == "mop" else jasm_io.compile_rule(open(rp).read(), macros=[lib])
+        with open(lib, "w") as f:
+            f.write(v2)
+        second = jasm_io.match_files(rp, lp, mode="bool", macros=[lib]) if entry == "mop" else jasm_io.compile_rule(open(rp).read(), macros=[lib])
+        ev.subcases = (ev.subcases or 0) + 2
+        if first[0] != "ok":
+            ev.dev("valid-macro-rule-rejected", entry=entry, error=list(first[1:]))
+        elif second[0] == "ok":
+            ev.dev("unresolved-reference-compiled-silently", fault="library-rewritten-between-compilations", entry=entry, library_now=v2, result=str(second[1])[:200])
+        elif second[0] == "exc" and how != 1 and "@rwinner_" not in second[2]:
+            ev.dev("error-does-not-name-the-reference", fault="library-rewritten-between-compilations", entry=entry, expected="@rwinner_", error=list(second[1:]))
+
+
 def evaluate(case):
     ev = Eval()
     sc = jasm_io.scratch()
@@ -193,7 +218,11 @@ def evaluate(case):
         if first[0] != "ok":
             ev.dev("valid-macro-rule-rejected", error=list(first[1:]))
             return ev
-    ev.tags = [f"fault={fault}", f"placement={case['placement']}"]
+    if fault == "control" and len(jasm_io.dump_yaml(case["factored"])) % 3 == 0:
+        # The same rule text compiled twice with the same macro-file PATH, the file rewritten in between so that a reference loses
+        # its definition: the second compilation must report it (through MasterOfPuppets and through Yaml2Regex).
+        _library_rewritten(ev, sc, case)
+    ev.tags = ev.tags + [f"fault={fault}", f"placement={case['placement']}"]
     ev.nontrivial = True
     ev.keys = [(fault, case["placement"], jasm_io.dump_yaml(case["factored"]))]
     ev.sample = {"fault": fault, "pattern": case["factored"], "macros_in_file": case["macros_in_file"], "macro_files": case["macro_files"], "outcome": list(r[:2])[:2] if r[0] != "ok" else ["ok", r[1][:200]]}
